@@ -230,6 +230,22 @@ fn leaf_bytes_peek_n() {
     let f: Option<[u8; 4]> = bytes.peek_n::<[u8; 4]>(4);
     if cur + 4 <= buf.len() { assert_eq!(&f.unwrap()[..], &buf[cur..cur + 4]); } else { assert!(f.is_none()); }
 }
+// the other array sizes a fast path may read with (axioms try_from_slice_arr{1,2,3,5,6,7,16,32} of spec/bytes.rs); peek_n is one
+// generic, loop-free body: its independence of the buffer length is the leaf above, here a 40-byte buffer with any contents,
+// any length <= 40 and any cursor
+#[kani::proof]
+#[kani::unwind(34)]
+fn leaf_bytes_peek_n_sizes() {
+    let arr: [u8; 40] = kani::any();
+    let len: usize = kani::any_where(|l: &usize| *l <= 40);
+    let buf = &arr[..len];
+    let cur: usize = kani::any_where(|c: &usize| *c <= len);
+    let mut bytes = Bytes::new(buf);
+    unsafe { bytes.advance(cur); }
+    macro_rules! pn { ($n:expr) => { let g: Option<[u8; $n]> = bytes.peek_n::<[u8; $n]>($n);
+        if cur + $n <= len { let a = g.unwrap(); let mut i = 0; while i < $n { assert_eq!(a[i], buf[cur + i]); i += 1; } } else { assert!(g.is_none()); } } }
+    pn!(1); pn!(2); pn!(3); pn!(5); pn!(6); pn!(7); pn!(16); pn!(32);
+}
 #[kani::proof]
 fn leaf_bytes_advance() {
     let (mut bytes, buf, start, cur) = any_bytes();
@@ -358,6 +374,7 @@ static SENTINEL: &str = "sentinel";
 static mut M_CALLS: usize = 0;
 static mut M_BUF: (usize, usize) = (0, 0);
 static mut M_CFG: usize = 0;
+static mut M_ARR: (usize, usize) = (0, 0);
 static mut M_RES: u8 = 0;
 static mut M_N: usize = 0;
 // the start-line fields as the callee found them and as it left them (frame: the wrapper itself must not touch them, neither before
@@ -386,7 +403,7 @@ fn decode(which: u8, n: usize) -> Result<usize> {
 }
 impl<'h, 'b> Request<'h, 'b> {
     fn kani_model_uninit(&mut self, buf: &'b [u8], config: &ParserConfig, headers: &'h mut [MaybeUninit<Header<'b>>]) -> Result<usize> {
-        unsafe { M_CALLS += 1; M_BUF = (buf.as_ptr() as usize, buf.len()); M_CFG = config as *const ParserConfig as usize; }
+        unsafe { M_CALLS += 1; M_BUF = (buf.as_ptr() as usize, buf.len()); M_CFG = config as *const ParserConfig as usize; M_ARR = (headers.as_ptr() as usize, headers.len()); }
         unsafe { M_IN = (scode(self.method), scode(self.path), vcode(self.version), 0); }
         let (m, p): (u8, u8) = (kani::any_where(|c: &u8| *c <= 2), kani::any_where(|c: &u8| *c <= 2));
         let v: Option<u8> = if kani::any() { Some(kani::any()) } else { None };
@@ -405,7 +422,7 @@ impl<'h, 'b> Request<'h, 'b> {
 }
 impl<'h, 'b> Response<'h, 'b> {
     fn kani_model_uninit(&mut self, buf: &'b [u8], config: &ParserConfig, headers: &'h mut [MaybeUninit<Header<'b>>]) -> Result<usize> {
-        unsafe { M_CALLS += 1; M_BUF = (buf.as_ptr() as usize, buf.len()); M_CFG = config as *const ParserConfig as usize; }
+        unsafe { M_CALLS += 1; M_BUF = (buf.as_ptr() as usize, buf.len()); M_CFG = config as *const ParserConfig as usize; M_ARR = (headers.as_ptr() as usize, headers.len()); }
         unsafe { M_IN = (scode(self.reason), 0, vcode(self.version), ccode(self.code)); }
         let m: u8 = kani::any_where(|c: &u8| *c <= 2);
         let v: Option<u8> = if kani::any() { Some(kani::any()) } else { None };
@@ -451,6 +468,7 @@ fn leaf_request_wrapper_restores() {
         assert!(M_CALLS == 1);
         assert!(M_BUF == (buf.as_ptr() as usize, buf.len()));
         assert!(M_CFG == &cfg as *const ParserConfig as usize);
+        assert!(M_ARR.1 == cap && (M_ARR.0 == p0 || cap == 0));          // the callee is given the caller's WHOLE array
         assert!(r == decode(M_RES, M_N));
     }
     match r {
@@ -483,6 +501,7 @@ fn leaf_response_wrapper_restores() {
         assert!(M_CALLS == 1);
         assert!(M_BUF == (buf.as_ptr() as usize, buf.len()));
         assert!(M_CFG == &cfg as *const ParserConfig as usize);
+        assert!(M_ARR.1 == cap && (M_ARR.0 == p0 || cap == 0));          // the callee is given the caller's WHOLE array
         assert!(r == decode(M_RES, M_N));
     }
     match r {
